@@ -198,7 +198,8 @@ def impl(stream, line):
             fh.seek(initpos)
             io.DEFAULT_BUFFER_SIZE = B  # utils does `import io` and reads the attribute at call time
             assert utils.io is io
-            out = list(utils.iter_find_needle(fh, needle, start, maxoff))
+            out = list(utils.iter_find_needle(fh, needle, **C.drop_defaults(line, {"start_offset": None, "max_offset": 0},
+                                                                           start_offset=start, max_offset=maxoff)))
             return "ok " + C.ints(out) + " " + str(fh.tell())
         finally:
             io.DEFAULT_BUFFER_SIZE = saved
@@ -208,7 +209,8 @@ def impl(stream, line):
         fh = _open(kind, hay)
         try:
             fh.seek(initpos)
-            hits = [tuple(h) for h in artifact.iter_artifactkit_payloads(fh, start, maxrange)]
+            hits = [tuple(h) for h in artifact.iter_artifactkit_payloads(fh, **C.drop_defaults(line, {"start_offset": 0, "maxrange": None},
+                                                                                              start_offset=start, maxrange=maxrange))]
             return fmt_hits(hits, fh.tell())
         finally:
             fh.close()
